@@ -62,3 +62,61 @@ def run(ctx):
                 ctx.violation("%s:%s" % (prop, b[1][:60]), "%s (relay history %d: %s)" % (b[1], bi, behs[bi] if 0 <= bi < len(behs) else "?"), {"history": behs[bi] if 0 <= bi < len(behs) else None})
         else:
             raise vlib.Infra("ClientMon did not consume the trace\n" + r.out[-2000:])
+    system(ctx, prop)
+
+
+def system(ctx, prop):
+    """the whole system: real relay server + real clients over in-memory SRPC pipes, driven through SigSysEnv.tla histories
+    (client restarts that take over the session, applications that stop reading, sends), then stabilised; SigSysMon.tla judges"""
+    import random
+    r = ctx.tlc("SigSysEnv", cfg="MC_SigSysEnv.cfg", timeout=600, count=False)
+    hs = sorted({m.group(1).encode().decode("unicode_escape") for m in re.finditer(r'<<"HIST", "(.*)">>', r.out)})
+    if not hs:
+        raise vlib.Infra("SigSysEnv printed no history")
+    hs = [json.loads(h) for h in hs]
+    # always: histories in which a peer restarts (second incarnation) while a send is in flight or its application is not reading
+    def key(h):
+        acts = [(s["a"], s["p"], s["i"]) for s in h]
+        restart = any(a == "up" and i == 2 for a, p, i in acts)
+        return restart and any(a == "send" for a, p, i in acts)
+    must = [h for h in hs if key(h)]
+    rest = [h for h in hs if not key(h)]
+    random.Random(ctx.seed * 17 + 3).shuffle(rest)
+    random.Random(ctx.seed * 19 + 5).shuffle(must)
+    n = 400 if ctx.tier == "quick" else len(hs)
+    behs = (must[: n * 3 // 4] + rest)[:n]
+    reps = 1 if ctx.tier == "quick" else 3
+    behs = behs * reps
+    bpath = os.path.join(ctx.tmp, "ss_behaviours.json")
+    json.dump(behs, open(bpath, "w"))
+    tpath = os.path.join(ctx.tmp, "ss_trace.ndjson")
+    ctx.go_run("sigsys", ["-cases", bpath, "-out", tpath], timeout=3000)
+    rows = vlib.read_ndjson(tpath)
+    finals = [x for x in rows if x["e"] == "final"]
+    if len(finals) != len(behs):
+        raise vlib.Infra("sigsys: %d final observations for %d histories" % (len(finals), len(behs)))
+    ctx.traces += len(behs)
+    ctx.evaluations += sum(len(f["sends"]) + len(f["recvs"]) for f in finals)
+    ctx.cov["system_histories"] = len(behs)
+    ctx.cov["system_sends_completed"] = sum(1 for f in finals for s in f["sends"] if s["res"] == "ok")
+    for b in behs:
+        if key(b):
+            ctx.nontrivial.add("sys:" + json.dumps(b))
+    ctx.sample({"system history": behs[0], "final": finals[0]})
+    ctx.rule += ("; system level: SigSysEnv.tla histories (5 steps: incarnations of both peers start / stop / stop reading / resume / send) on the real relay + real clients, "
+                 "stabilised afterwards: every Send on a live incarnation completes (C23), success only after the partner's application received it (C21), only authentic messages (C19)")
+    ok, r = ctx.tlc_validate("SigSysMon", "SigSysMon.cfg", tpath, env={"PROP": prop}, dfs=False, timeout=1800)
+    if not ok:
+        if r.violated == "NoViolation":
+            tail = r.out[r.out.rfind("/\\ bad ="):]
+            bads = re.findall(r'<<\s*"(C\d+)",\s*"([^"]*)",\s*(-?\d+)\s*>>', tail, re.S)
+            seen = set()
+            for b in [b for b in bads if b[0] == prop]:
+                if b[1] in seen:
+                    continue
+                seen.add(b[1])
+                h = behs[int(b[2])] if 0 <= int(b[2]) < len(behs) else None
+                ctx.violation("%s:system:%s" % (prop, b[1][:70]), "%s (system history %s)" % (b[1], [(s["a"], s["p"], s["i"]) for s in h] if h else "?"),
+                              {"history": h, "final": finals[int(b[2])] if 0 <= int(b[2]) < len(finals) else None})
+        else:
+            raise vlib.Infra("SigSysMon did not consume the trace\n" + r.out[-2000:])
